@@ -63,6 +63,41 @@ def run(ck: Check, repo: Repo) -> None:
     _dqn_wrapper(ck, repo)
 
 
+# ------------------------------------------------------------------------------------------------ choices of a value, in either spelling
+Guards = List[Tuple[ast.AST, bool]]
+
+
+def _alts(v: Optional[ast.AST], guards: Optional[Guards] = None) -> List[Tuple[Guards, Optional[ast.AST]]]:
+    """(guards, value) for every value an expression may stand for: `a if c else b` is a under (c, True) and b under (c, False)."""
+    guards = list(guards or [])
+    if isinstance(v, ast.IfExp):
+        return _alts(v.body, guards + [(v.test, True)]) + _alts(v.orelse, guards + [(v.test, False)])
+    return [(guards, v)]
+
+
+def _def_alts(cfg: CFG, at: Optional[Node], name: str) -> List[Tuple[Guards, Optional[ast.AST], Node]]:
+    """(guards, value, definition node) for every value the local `name` may hold at node `at`: one entry per reaching definition and per alternative
+    of a conditional expression, each with the branch outcomes under which it is bound.  `x = a if c else b` and `if c: x = a` / `else: x = b`
+    give the same list (value None = not a plain binding)."""
+    out = []
+    for d in (cfg.defs_reaching(at, name) if at is not None else []):
+        here = [(g, pol) for g, pol, _ in cfg.guards_at(d)]
+        out += [(gs, v, d) for gs, v in _alts(cfg.value_of_def(d, name), here)]
+    return out
+
+
+def _facts(guards: Guards) -> List[Tuple[str, bool]]:
+    """The atoms known to hold (text without blanks, polarity); `x is None` is stated as `x is not None` with the opposite polarity."""
+    from ..domains import conjuncts
+    out = []
+    for g, pol in guards:
+        for a, p in conjuncts(g, pol):
+            if isinstance(a, ast.Compare) and len(a.ops) == 1 and isinstance(a.ops[0], ast.Is) and isinstance(a.comparators[0], ast.Constant) and a.comparators[0].value is None:
+                a, p = ast.Compare(left=a.left, ops=[ast.IsNot()], comparators=a.comparators), not p
+            out.append((ast.unparse(a).replace(" ", ""), p))
+    return out
+
+
 # ------------------------------------------------------------------------------------------------ C14.1
 def _mask_polarity(tb: TermBuilder, m: Poly, mask_atoms: Set[str]) -> str:
     """'inverse' if m == 1 - mask, 'direct' if m == mask, else 'unknown'."""
@@ -164,20 +199,22 @@ def _multi_discrete(ck: Check, repo: Repo, fn: Fn) -> int:
         node = cfg.node_of(c)
         n += 1
         recv = c.func.value
-        # the receiver: np.ma.array(action, mask=mask) with mask = 1 - np.array(action_masks[agent]) if ... else None
-        defs = cfg.defs_reaching(node, dotted(recv)) if isinstance(recv, ast.Name) else []
+        # the receiver: np.ma.array(action, mask=mask) with mask = 1 - np.array(action_masks[agent]) where that agent has a mask, None where it has none
+        # (a conditional expression or an if / else statement: every value the mask local may hold is inspected together with the branch outcomes it is bound under)
         ok = False
         why = "receiver is not a masked array"
-        for d in defs:
-            v = cfg.value_of_def(d, dotted(recv))
+        for _, v, d in (_def_alts(cfg, node, recv.id) if isinstance(recv, ast.Name) else []):
             if isinstance(v, ast.Call) and call_name(v) == "np.ma.array":
                 mk = get_kw(v, "mask", 1)
                 if isinstance(mk, ast.Name):
-                    md = cfg.defs_reaching(d, mk.id)
-                    vals = [cfg.value_of_def(x, mk.id) for x in md]
-                    ok = bool(vals) and all(isinstance(x, ast.IfExp) and ast.unparse(x.body).replace(" ", "").startswith(f"1-np.array({am}[") and ast.unparse(x.test).replace(" ", "").startswith(f"{am}[") and const_value(x.orelse) is None
-                                            and "is not None" in ast.unparse(x.test) for x in vals)
-                    why = f"mask = {[short(x, 70) for x in vals]}"
+                    vals = _def_alts(cfg, d, mk.id)
+
+                    def has_mask(gs: Guards, pol: bool) -> bool:
+                        return any(t.startswith(f"{am}[") and t.endswith("isnotNone") and p == pol for t, p in _facts(gs))
+                    hidden = [x is not None and ast.unparse(x).replace(" ", "").startswith(f"1-np.array({am}[") and has_mask(gs, True) for gs, x, _ in vals]
+                    absent = [isinstance(x, ast.Constant) and x.value is None and has_mask(gs, False) for gs, x, _ in vals]
+                    ok = any(hidden) and all(h or a for h, a in zip(hidden, absent))
+                    why = f"mask = {[(short(x, 70), _facts(gs)) for gs, x, _ in vals]}"
         ck.ob("C14.1", fn, c, ok, f"{label}: the per-agent arg-max runs over a masked array hiding illegal actions (mask = 1 - action_mask of that agent)", detail=why)
         ck.ob("C14.1", fn, c, const_value(get_kw(c, "axis")) == -1, f"{label}: the arg-max runs over the action axis")
     # env-defined actions overwrite with the environment's own actions under the agent's mask
@@ -299,7 +336,7 @@ def _ippo_clip_space(ck: Check, repo: Repo) -> None:
             elif isinstance(t, ast.Tuple) and isinstance(t.elts[0], ast.Name) and not (isinstance(l.iter, ast.Call) and call_name(l.iter) == "enumerate"):
                 gid = t.elts[0].id
         if gid is not None and node is not None and isinstance(c.args[1].value, ast.Name):
-            vals = [cfg.value_of_def(d, sp) for d in cfg.defs_reaching(node, sp)]
+            vals = [v for _, v, _ in _def_alts(cfg, node, sp)]
             okv = []
             for v in vals:
                 # self.action_space[K] / .get(K) with K = self.homogeneous_agents[<group id>][i], or self.unique_action_spaces[<group id>]
@@ -310,7 +347,7 @@ def _ippo_clip_space(ck: Check, repo: Repo) -> None:
                     continue
                 kvals = [key]
                 if isinstance(key, ast.Name):
-                    kvals = [cfg.value_of_def(d, key.id) for d in cfg.defs_reaching(node, key.id)]
+                    kvals = [k for _, k, _ in _def_alts(cfg, node, key.id)]
                 def from_group(k):
                     txt = ast.unparse(k) if k is not None else ""
                     return (holder == "self.unique_action_spaces" and txt == gid) or (holder == "self.action_space" and txt.startswith(f"self.homogeneous_agents[{gid}]["))
@@ -408,17 +445,18 @@ def _continuous(ck: Check, repo: Repo, fn: Fn) -> None:
     label = fn.qualname
     rets = [n for n in cfg.live_nodes() if n.kind == "stmt" and isinstance(n.ast, ast.Return)]
     ck.floor("C14.2", len(rets), 1, f"{label}: return")
-    for r in rets:
-        v = r.ast.value
+    for r, v in [(r, v) for r in rets for _, v in _alts(r.ast.value)]:
+        # (one set of obligations per returned alternative: `return a if c else b` is `if c: return a` / `else: return b`)
+        rs = r.ast if v is r.ast.value else ast.copy_location(ast.Return(value=v), r.ast)
         ok = isinstance(v, ast.Call) and last_attr(v) in ("clip", "clamp") and len(v.args) == 2
-        ck.ob("C14.2", fn, r.ast, ok, f"{label}: the returned action is the result of a clip", detail=short(v, 80))
+        ck.ob("C14.2", fn, rs, ok, f"{label}: the returned action is the result of a clip", detail=short(v, 80))
         if ok:
             lo, hi = dotted(v.args[0]), dotted(v.args[1])
-            ck.ob("C14.2", fn, r.ast, lo == "self.action_space.low" and hi == "self.action_space.high",
+            ck.ob("C14.2", fn, rs, lo == "self.action_space.low" and hi == "self.action_space.high",
                   f"{label}: the clip bounds are the action space's full low / high vectors", detail=f"clip({lo}, {hi})")
             # noise is added before
             noise = [n for n in cfg.live_nodes() if n.kind == "stmt" and "action_noise" in ast.unparse(n.ast)]
-            ck.ob("C14.2", fn, r.ast, all(cfg.dominates(n, r) or r.id in cfg.reachable_from(n) for n in noise) and all(r.id not in {x.id for x in [n]} for n in noise),
+            ck.ob("C14.2", fn, rs, all(cfg.dominates(n, r) or r.id in cfg.reachable_from(n) for n in noise) and all(r.id not in {x.id for x in [n]} for n in noise),
                   f"{label}: exploration noise is applied before the clip")
 
 
@@ -433,11 +471,9 @@ def _multi_continuous(ck: Check, repo: Repo, fn: Fn) -> None:
         for which, b in (("lower", lo), ("upper", hi)):
             vals = []
             if isinstance(b, ast.Name):
-                for d in cfg.defs_reaching(n, b.id):
-                    v = cfg.value_of_def(d, b.id)
-                    vals.append(v)
+                vals = [v for _, v, _ in _def_alts(cfg, n, b.id)]
             else:
-                vals = [b]
+                vals = [v for _, v in _alts(b)]
             for v in vals:
                 if v is None:
                     ck.ob("C14.2", fn, c, False, f"{label}: {which} bound has a recognisable definition")
@@ -509,6 +545,9 @@ def _kind(cfg: CFG, e: ast.AST, at: Node, depth: int = 0) -> str:
         return "unknown"
     if isinstance(e, ast.Subscript):
         return _kind(cfg, e.value, at, depth + 1)
+    if isinstance(e, ast.IfExp):
+        ks = {_kind(cfg, v, at, depth + 1) for _, v in _alts(e)}
+        return ks.pop() if len(ks) == 1 else "unknown"
     if isinstance(e, ast.Name):
         ks = set()
         for d in cfg.defs_reaching(at, e.id):
@@ -589,7 +628,7 @@ def _dqn_wrapper(ck: Check, repo: Repo) -> None:
     okw = False
     for c in wh:
         nd = icfg.node_of(c)
-        cands = [[icfg.value_of_def(d, a.id) for d in icfg.defs_reaching(nd, a.id)] for a in c.args[1:]]
+        cands = [[v for _, v, _ in _def_alts(icfg, nd, a.id)] for a in c.args[1:]]
         # both alternatives are arg-max results (every arg-max operand is shown to be masked by the rule above)
         if all(v and all(isinstance(x, ast.Call) and last_attr(x) == "argmax" for x in v) for v in cands) and c.args[1].id != c.args[2].id:
             okw = True
@@ -626,5 +665,26 @@ VARIANTS = [
     ("maddpg-first-dim-bound", _MA, "                        torch.as_tensor(self.min_action[idx], device=actions.device),", "                        self.min_action[idx][0],", "fire", "C14.2"),
     ("maddpg-mask-not-inverted", _MA, "                    1 - np.array(action_masks[agent])\n", "                    np.array(action_masks[agent])\n", "fire", "C14.1"),
     ("ppo-clip-in-training-only", _PP, "        if not self.training and isinstance(self.action_space, spaces.Box):", "        if self.training and isinstance(self.action_space, spaces.Box):", "fire", "C14.3"),
+    # a choice between two values spelled as an if / else statement instead of a conditional expression (and the other way round) is the same program
+    ("maddpg-mask-if-statement-ok", _MA, "                mask = (\n                    1 - np.array(action_masks[agent])\n                    if action_masks[agent] is not None\n                    else None\n                )\n",
+     "                if action_masks[agent] is not None:\n                    mask = 1 - np.array(action_masks[agent])\n                else:\n                    mask = None\n", "silent", None),
+    ("maddpg-mask-if-none-statement-ok", _MA, "                mask = (\n                    1 - np.array(action_masks[agent])\n                    if action_masks[agent] is not None\n                    else None\n                )\n",
+     "                if action_masks[agent] is None:\n                    mask = None\n                else:\n                    mask = 1 - np.array(action_masks[agent])\n", "silent", None),
+    ("maddpg-mask-none-first-expression-ok", _MA, "                mask = (\n                    1 - np.array(action_masks[agent])\n                    if action_masks[agent] is not None\n                    else None\n                )\n",
+     "                mask = None if action_masks[agent] is None else 1 - np.array(action_masks[agent])\n", "silent", None),
+    ("maddpg-mask-if-statement-not-inverted", _MA, "                mask = (\n                    1 - np.array(action_masks[agent])\n                    if action_masks[agent] is not None\n                    else None\n                )\n",
+     "                if action_masks[agent] is not None:\n                    mask = np.array(action_masks[agent])\n                else:\n                    mask = None\n", "fire", "C14.1"),
+    ("maddpg-mask-if-statement-dropped", _MA, "                mask = (\n                    1 - np.array(action_masks[agent])\n                    if action_masks[agent] is not None\n                    else None\n                )\n",
+     "                if action_masks[agent] is not None and self.training:\n                    mask = 1 - np.array(action_masks[agent])\n                else:\n                    mask = None\n", "fire", "C14.1"),
+    ("maddpg-mask-expression-dropped", _MA, "                    if action_masks[agent] is not None\n                    else None\n", "                    if action_masks[agent] is not None and self.training\n                    else None\n", "fire", "C14.1"),
+    ("maddpg-bounds-conditional-expressions-ok", _MA, "                if self.discrete_actions:\n                    min_action, max_action = 0, 1\n                else:\n                    # Clamp every action dimension with its own bound\n                    min_action, max_action = (\n                        torch.as_tensor(self.min_action[idx], device=actions.device),\n                        torch.as_tensor(self.max_action[idx], device=actions.device),\n                    )\n",
+     "                min_action = 0 if self.discrete_actions else torch.as_tensor(self.min_action[idx], device=actions.device)\n                max_action = 1 if self.discrete_actions else torch.as_tensor(self.max_action[idx], device=actions.device)\n", "silent", None),
+    ("maddpg-bounds-conditional-expression-first-dim", _MA, "                if self.discrete_actions:\n                    min_action, max_action = 0, 1\n                else:\n                    # Clamp every action dimension with its own bound\n                    min_action, max_action = (\n                        torch.as_tensor(self.min_action[idx], device=actions.device),\n                        torch.as_tensor(self.max_action[idx], device=actions.device),\n                    )\n",
+     "                min_action = 0 if self.discrete_actions else self.min_action[idx][0]\n                max_action = 1 if self.discrete_actions else torch.as_tensor(self.max_action[idx], device=actions.device)\n", "fire", "C14.2"),
+    ("ddpg-return-conditional-expression-ok", _DD, "        return action.clip(self.action_space.low, self.action_space.high)", "        return action.clip(self.action_space.low, self.action_space.high) if training else action.clip(self.action_space.low, self.action_space.high)", "silent", None),
+    ("ddpg-return-if-statement-ok", _DD, "        return action.clip(self.action_space.low, self.action_space.high)", "        if training:\n            return action.clip(self.action_space.low, self.action_space.high)\n        else:\n            return action.clip(self.action_space.low, self.action_space.high)", "silent", None),
+    ("ddpg-return-conditional-expression-unclipped", _DD, "        return action.clip(self.action_space.low, self.action_space.high)", "        return action.clip(self.action_space.low, self.action_space.high) if training else action", "fire", "C14.2"),
+    ("dqn-candidates-conditional-expression-ok", _DQ, "        masked_policy_actions = torch.argmax(masked_q_values, dim=-1)\n", "        masked_policy_actions = torch.argmax(masked_q_values, dim=-1) if masked_q_values.dim() > 1 else torch.argmax(masked_q_values, dim=0)\n", "silent", None),
+    ("dqn-candidates-conditional-expression-unmasked", _DQ, "        masked_policy_actions = torch.argmax(masked_q_values, dim=-1)\n", "        masked_policy_actions = torch.argmax(masked_q_values, dim=-1) if masked_q_values.dim() > 1 else torch.zeros_like(masked_random_actions)\n", "fire", "C14.1"),
     ("ppo-clip-bounds-swapped-space", _PP, "action = np.clip(action, self.action_space.low, self.action_space.high)", "action = np.clip(action, self.observation_space.low, self.action_space.high)", "fire", "C14.3"),
 ]
